@@ -15,7 +15,7 @@ hand-written meaning of what `harness/translate/tlbparsers_blk.py` emits besides
   * `Rd.presence`                 a constructor argument kept as an unparsed cell where the schema has a structured value: `None` / "a cell"
   * `Rd.merkleUpdateOrd c`        `MerkleUpdate.deserialize(c, …)` for an ordinary cell `c`: `None`; exotic cells are outside the model
   * `Rd.tuple`                    a Python tuple → `.con "tuple" (.record [("0", a), ("1", b)])`
-  * `Rd.augWalk x y`              `parse_aug` of boc/hashmap/parse.py: label (HmLabel reader), then a leaf reads `extra:Y` THEN `value:X`
+  * `Rd.augWalk x y`              `parse_aug` of boc/hashmap/parse.py: a non-ordinary cell is skipped (no entries, no extras); else label (HmLabel reader), then a leaf reads `extra:Y` THEN `value:X`
                                   from the same cell (`extras.append(y(cs)); ret[prefix] = x(cs)`), a fork walks its two references and
                                   then reads its own `extra:Y`; result = (entries left to right, extras in that post-order)
   * `Rd.loadHashmapAugE n x y sp` `Slice.load_hashmap_aug_e(n, x, y)`: `self.to_cell()` for a special slice; Maybe bit; root reference
@@ -103,6 +103,8 @@ def tuple (xs : List Val) : Val := .con "tuple" (.record (enumFrom 0 xs))
 def augWalk (x y : Frag → R) : Nat → Nat → Bits → Cell → Option (List (Bits × Val) × List Val)
   | 0, _, _, _ => none
   | fuel+1, n, pfx, c =>
+    if c.exotic then some ([], [])     -- `parse_aug`: `if slice.type_ != CellTypes.ordinary: return None` (a pruned branch is skipped)
+    else
     match (hmLabel n).dec ⟨c.bits, c.refs⟩ with
     | none => none
     | some (lv, s1) =>
